@@ -81,8 +81,8 @@ def run(m, rep, tier):
     check_internal_buffer_agreement(m, a7)
 
     a5 = rep.rule('A5', 'release hands back only an external, uniquely referenced buffer and resets; otherwise NULL and no change', floor=1)
-    f = m.pfn('cstl_array_release')
-    if f is None:
+    f = m.focus('array').fn('cstl_array_release') if m.plain.get('array') is not None else None     # a private "detach" worker inlined
+    if f is None or f.decl:
         a5.undecided('cstl_array_release', 'not in the model')
     else:
         check_release(m, f, a5)
